@@ -402,6 +402,30 @@ func runScenarios(sc *Scratch, d *Driver, scs []*Scenario, workers int, pool ...
 				for _, i := range idx {
 					runs[i].Err = err
 				}
+				if he, ok := err.(*HangErr); ok {
+					// the history that was running: the last one that left an event, and its successor
+					last := ""
+					for _, e := range evs {
+						if e != nil && e.H != "" {
+							last = e.H
+						}
+					}
+					var cand []*Scenario
+					for k, i := range idx {
+						if scs[i].ID == last || (last == "" && k == 0) {
+							cand = append(cand, scs[i])
+							if k+1 < len(idx) {
+								cand = append(cand, scs[idx[k+1]])
+							}
+							break
+						}
+					}
+					if len(cand) == 0 {
+						cand = append(cand, scs[idx[0]])
+					}
+					recordHang(he.H, cand)
+					return inconclusive("%v", err)
+				}
 				return err
 			}
 			if p0.Real {
